@@ -51,6 +51,16 @@ pub struct SenderCtl {
 	/// if set, `send` keeps its future pending for this long AFTER the bytes became visible to the peer
 	/// (a transport whose write completes later than the peer can read and answer)
 	pub linger_after_send: Mutex<Option<std::time::Duration>>,
+	/// if set, `send_ping` fails with this text
+	pub fail_ping: Mutex<Option<String>>,
+	/// number of `send_ping` calls
+	pub pings: AtomicUsize,
+	/// if set, `receive` is not a single await: after it has taken a message from the peer it keeps its future pending
+	/// for this long before returning it (a transport that assembles a message from several reads). A `receive` future
+	/// that is dropped in that phase loses the message, as with a real fragmented frame.
+	pub receive_in_pieces: Mutex<Option<std::time::Duration>>,
+	/// messages that were taken from the peer by a `receive` future which was then dropped before it returned them
+	pub receives_dropped_midway: AtomicUsize,
 }
 
 pub struct ScriptSender {
@@ -60,6 +70,7 @@ pub struct ScriptSender {
 
 pub struct ScriptReceiver {
 	rx: mpsc::UnboundedReceiver<ServerIn>,
+	ctl: Arc<SenderCtl>,
 }
 
 /// The harness' end of the scripted transport.
@@ -75,7 +86,7 @@ pub fn scripted_transport() -> (ScriptSender, ScriptReceiver, ServerSide) {
 	let (tx, out) = mpsc::unbounded_channel();
 	let (to_client, rx) = mpsc::unbounded_channel();
 	let ctl = Arc::new(SenderCtl::default());
-	(ScriptSender { tx, ctl: ctl.clone() }, ScriptReceiver { rx }, ServerSide { out, to_client: Some(to_client), ctl })
+	(ScriptSender { tx, ctl: ctl.clone() }, ScriptReceiver { rx, ctl: ctl.clone() }, ServerSide { out, to_client: Some(to_client), ctl })
 }
 
 impl TransportSenderT for ScriptSender {
@@ -109,6 +120,10 @@ impl TransportSenderT for ScriptSender {
 
 	fn send_ping(&mut self) -> impl Future<Output = Result<(), Self::Error>> + Send {
 		async move {
+			self.ctl.pings.fetch_add(1, Ordering::SeqCst);
+			if let Some(text) = self.ctl.fail_ping.lock().unwrap().clone() {
+				return Err(ScriptError(text));
+			}
 			let _ = self.tx.send(ClientOut::Ping { ticket: ticket() });
 			Ok(())
 		}
@@ -132,7 +147,23 @@ impl TransportReceiverT for ScriptReceiver {
 
 	fn receive(&mut self) -> impl Future<Output = Result<ReceivedMessage, Self::Error>> + Send {
 		async move {
-			match self.rx.recv().await {
+			let item = self.rx.recv().await;
+			let pieces = *self.ctl.receive_in_pieces.lock().unwrap();
+			if let Some(d) = pieces {
+				// the message has been taken off the wire; assembling it takes a while
+				struct Midway<'a>(&'a SenderCtl, bool);
+				impl Drop for Midway<'_> {
+					fn drop(&mut self) {
+						if !self.1 {
+							self.0.receives_dropped_midway.fetch_add(1, Ordering::SeqCst);
+						}
+					}
+				}
+				let mut guard = Midway(&self.ctl, false);
+				tokio::time::sleep(d).await;
+				guard.1 = true;
+			}
+			match item {
 				Some(ServerIn::Text(t)) => Ok(ReceivedMessage::Text(t)),
 				Some(ServerIn::Bytes(b)) => Ok(ReceivedMessage::Bytes(b)),
 				Some(ServerIn::Pong) => Ok(ReceivedMessage::Pong),
